@@ -1040,3 +1040,72 @@ def contains(tree, pred):
 
 def is_call(tree, suffix):
     return isinstance(tree, tuple) and tree and tree[0] == 'call' and (tree[1] == suffix or tree[1].endswith('::' + suffix) or tree[1].endswith(suffix))
+
+
+# ------------------------------------------------------------------ liveness
+def _uses_defs(fn, b):
+    """(locals read before being wholly written in block b, locals wholly written in b)"""
+    import slices as _sl
+    use, deff = set(), set()
+
+    def reads(x):
+        c = _sl.Canon(fn)
+        c.any(x)
+        return c.used
+    blk = fn.blocks[b]
+    for s in blk['s']:
+        if s['k'] == 'assign':
+            r = reads(s['rv'])
+            lhs = s['lhs']
+            if lhs.get('p'):
+                r |= {lhs['l']} | reads({'p': [e for e in lhs['p'] if isinstance(e, dict) and 'i' in e]})
+            use |= (r - deff)
+            if not lhs.get('p'):
+                deff.add(lhs['l'])
+        elif s['k'] in ('setdiscr',):
+            use |= ({s['lhs']['l']} - deff)
+    t = blk['t']
+    k = t['k']
+    r = set()
+    if k == 'call':
+        for a in t.get('args', []):
+            r |= reads(a)
+        if 'callee' in t:
+            r |= reads(t['callee'])
+        use |= (r - deff)
+        d = t.get('dest') or {}
+        if d and not d.get('p'):
+            deff.add(d['l'])
+        elif d:
+            use |= ({d['l']} - deff)
+    elif k == 'switch':
+        use |= (reads(t['x']) - deff)
+    elif k == 'assert':
+        for kk in ('cond', 'l', 'r', 'len', 'idx'):
+            if kk in t:
+                use |= (reads(t[kk]) - deff)
+    elif k == 'return':
+        use |= ({0} - deff)
+    elif k == 'yield':
+        if 'x' in t:
+            use |= (reads(t['x']) - deff)
+    return use, deff
+
+
+def live_in(fn):
+    """block -> set of locals live on entry (classic backward may-analysis; drops and storage markers are not uses)"""
+    ud = {b: _uses_defs(fn, b) for b in fn.reach}
+    live = {b: set() for b in fn.reach}
+    changed = True
+    while changed:
+        changed = False
+        for b in sorted(fn.reach, reverse=True):
+            out = set()
+            for s in fn.succ[b]:
+                out |= live.get(s, set())
+            use, deff = ud[b]
+            new = use | (out - deff)
+            if new != live[b]:
+                live[b] = new
+                changed = True
+    return live
